@@ -548,6 +548,7 @@ NOTE:
         x = [x.tolist() if hasattr(x, 'tolist') else x[:]]
         # apply all constraints once
         e = None
+        same = 0 # number of consecutive constraints that made no change
         for c in constraints:
             try:
                 ci = c(x[-1][:])
@@ -561,7 +562,8 @@ NOTE:
                     ci = x[-1][:] #XXX: do something else?
                 else: raise exc
             x.append(ci.tolist() if hasattr(ci, 'tolist') else ci)
-        if all(xi == x[-1] for xi in x[1:]) and e is None:
+            same = same+1 if (x[-1] == x[-2] and e is None) else 0
+        if same >= n:
             return x[-1] if onexit is None else onexit(x[-1][:])
         # cycle constraints until there's no change
         _constraints = it.cycle(constraints) 
@@ -579,11 +581,13 @@ NOTE:
                     ci = x[-1][:] #XXX: do something else?
                 else: raise exc
             x.append(ci.tolist() if hasattr(ci, 'tolist') else ci)
-            if all(xi == x[-1] for xi in x[-n:]) and e is None:
+            same = same+1 if (x[-1] == x[-2] and e is None) else 0
+            if same >= n: # every constraint leaves x[-1] unchanged
                 return x[-1] if onexit is None else onexit(x[-1][:])
             # may be trapped in a cycle... randomize
             if x[-1] == x[-(n+1)]:
                 x[-1] = [(i+rnd.randint(-1,1))*rnd.random() for i in x[-1]]
+                same = 0
             if not j%(2*n):
                 del x[:n]
         # give up #XXX: or fail with Error?
